@@ -855,28 +855,27 @@ impl Exec {
             }
             "fb" => {
                 self.f.arm();
+                // the slot index of the returned handle is private: it is observed through the address of the first
+                // flash read that `is_valid_firmware` issues on that handle (the slot's header)
                 let r = {
                     let (f, s) = (&mut self.f, &mut *self.s);
-                    guarded(|| mgr!(&self.m, m => block_on(m.fallback_firmware(f, s)).map(|o| o.is_some())))
-                };
-                // the slot index is private: find it by validation of the candidates is not possible; report presence
-                // and the index through the header scan below
-                let res = match &r {
-                    Err(_) => "PANIC".to_string(),
-                    Ok(Ok(true)) => {
-                        // newest confirmed slot by header words (oracle-side scan, only to print the index)
-                        let mut best: Option<(u32, usize)> = None;
-                        for i in 0..self.nslots {
-                            let w = self.hdr_words(i);
-                            if parses(&w) && w[4] == 0x4444_4444 && w[5] == 0x1111_1111 && w[6] == 0xABCD_1234 {
-                                if best.map(|b| b.0 < w[1]).unwrap_or(true) {
-                                    best = Some((w[1], i));
-                                }
+                    guarded(|| mgr!(&self.m, m => {
+                        match block_on(m.fallback_firmware(f, s)) {
+                            Err(e) => Err(e),
+                            Ok(None) => Ok(None),
+                            Ok(Some(slot)) => {
+                                f.arm();
+                                let _ = block_on(slot.is_valid_firmware(f, s));
+                                Ok(Some(f.first_read))
                             }
                         }
-                        format!("Some({})", best.map(|b| b.1 as i64).unwrap_or(-1))
-                    }
-                    Ok(Ok(false)) => "None".into(),
+                    }))
+                };
+                let slot_size = self.slot;
+                let res = match &r {
+                    Err(_) => "PANIC".to_string(),
+                    Ok(Ok(Some(addr))) => format!("Some({})", addr.map(|a| (a / slot_size) as i64).unwrap_or(-1)),
+                    Ok(Ok(None)) => "None".into(),
                     Ok(Err(e)) => format!("Err({})", merr(e)),
                 };
                 if r.is_err() {
